@@ -511,7 +511,7 @@ def stream_cli(ctx, nss, cfgmod, tmp):
             (["--monospectrum", "9.25"], {"spectrum": ("monospectrum", {"log_nu_energy": 9.25}), "cloud": "no_cloud"}),
             (["--powerspectrum", "2.5", "7.0", "9.0"], {"spectrum": ("powerspectrum", {"index": 2.5, "lower_bound": 7.0, "upper_bound": 9.0}), "cloud": "no_cloud"}),
             (["--monocloud", "4.5"], {"spectrum": ("monospectrum", {"log_nu_energy": 8.5}), "cloud": "monocloud"}),
-            (["--monospectrum", "10.0", "--pressuremapcloud", "2020-03-01"], {"spectrum": ("monospectrum", {"log_nu_energy": 10.0}), "cloud": "pressure_map"})]
+            (["--monospectrum", "10.0", "--pressuremapcloud", "March"], {"spectrum": ("monospectrum", {"log_nu_energy": 10.0}), "cloud": "pressure_map"})]
     if not ctx.thorough:
         runs = [runs[0], runs[1 + int(ctx.rng.integers(0, 2))], runs[3 + int(ctx.rng.integers(0, 2))]]
     for opts, want in runs:
